@@ -84,8 +84,13 @@ _NAMED = "any(%s <= j and j < %s and %s == hint_index_name('q', j) for j in ints
 for _v, _t in (('default', 'None'), ('given', 'IdGen')):
     contract(M, '_fresh_nfa_state', {'Q': 'Set[State]', 'id_generator': _t}, returns='State', variant=_v, modifies=['id_generator'],
              ensures=['result not in Q'] + ([_NAMED % ('old(id_generator.index)', 'id_generator.index', 'result'), 'id_generator.index > old(id_generator.index)'] if _v == 'given' else []),
-             loops={1: {'invariant': ([_NAMED % ('old(id_generator.index)', 'id_generator.index', 'q'), 'id_generator.index > old(id_generator.index)'] if _v == 'given' else [])}},
-             theories=['naming'], props=['C18'], note='partial correctness: the loop only exits with an unused name; termination (finitely many names are taken) is exercised by the bounded stand-in with clashing names and call histories')
+             type_invariants=['fin(Q)'],
+             loops={1: {'invariant': ([_NAMED % ('old(id_generator.index)', 'id_generator.index', 'q'), 'id_generator.index > old(id_generator.index)'] if _v == 'given' else []) +
+                                     ["q == hint_index_name('q', id_generator.index - 1)"],
+                        'decreases': ["card(Q - unnamed_from('q', id_generator.index - 1))"],
+                        'body_end': ["Q - unnamed_from('q', id_generator.index - 1) == (Q - unnamed_from('q', id_generator.index - 2)) - {hint_index_name('q', id_generator.index - 2)}"]}},
+             theories=['naming'], props=['C18'],
+             note='total correctness: the loop only exits with an unused name, and every unsuccessful round removes the name just tried from the finitely many generated names that are taken in Q (fin(Q): type invariant of Python sets)')
 
 _OPS = ['nfa_wf(result)', 'result.epsilon == N1.epsilon']
 def _step_from(Nn):
